@@ -157,12 +157,60 @@ fn shard(seed: u64, shard: u64, n: u64) -> Tally {
     t
 }
 
+/// The listed finding D7 as seen in what is returned: a folded request whose path writes a space as '+' is
+/// accepted (signature over %20) and comes back with the path %20, which is not the submitted path's normal form.
+fn plus_for_space(seed: u64, shard: u64, n: u64) -> Tally {
+    let mut t = Tally::new();
+    for i in 0..n {
+        let mut r = Rng::keyed(seed, "C15", "plus", shard, i);
+        let mut cfg = gen_cfg(&mut r);
+        cfg.s3 = false;
+        cfg.fold = true;
+        let o = GenOpts {
+            allow_form: false,
+            ..Default::default()
+        };
+        let mut l = gen_logical(&mut r, &cfg, &o);
+        l.method = "POST".into();
+        l.segs = vec![b"a b".to_vec()];
+        l.form_pairs = Some(vec![(b"k".to_vec(), b"v".to_vec())]);
+        l.body.clear();
+        l.content_type = Some(b"application/x-www-form-urlencoded".to_vec());
+        let present = crate::gen::present_header_names(&l);
+        l.signed.retain(|s| present.contains(s));
+        let mut sr = Rng::keyed(seed, "C15", "plus-spell", shard, i);
+        let mut sp = Speller {
+            r: &mut sr,
+            level: 0,
+        };
+        let (mut case, _) = make_case(&l, &cfg, &mut sp, &Overrides::default(), 0);
+        if !crate::gen::plus_for_space_in_path(&mut case.wire) {
+            continue;
+        }
+        let rec = execute(&case);
+        t.eval();
+        if !rec.outcome.is_ok() {
+            t.count("plus_for_space_not_accepted");
+            continue;
+        }
+        let Some(j) = judge(&case, &rec) else {
+            continue;
+        };
+        if let Some(v) = mon_returned(&case, &rec, &j) {
+            t.violate(v);
+        }
+    }
+    t
+}
+
 pub fn run(tier: Tier) -> i32 {
     let mut ctx = Ctx::new("C15", tier);
     let pre = preflight();
     let seed = ctx.seed;
     let per = tier.n(1500, 40_000);
     let mut tally = ctx.par(32, |s| shard(seed, s, per));
+    let plus = ctx.par(4, |s| plus_for_space(seed, s, tier.n(10, 200)));
+    tally.merge(plus);
     if let Err(e) = &pre {
         tally.inconclusive.push(e.clone());
     }
